@@ -7,7 +7,7 @@ From Coq Require Import ZArith Bool List.
 Import ListNotations.
 From Verif Require Import Model.Val Gen.Src_Task Gen.Src_TaskGraph Model.TaskGraph
   Proofs.TaskGraphP Proofs.TaskGraphP1 Proofs.TaskGraphP2 Proofs.TaskGraphP3 Proofs.TaskGraphP4
-  Proofs.TaskGraphP5 Proofs.TaskGraphP6.
+  Proofs.TaskGraphP5 Proofs.TaskGraphP6 Proofs.TaskGraphP7 Proofs.TaskGraphP8 Proofs.TaskGraphP9.
 Open Scope Z_scope.
 
 (* exactly one child is released: the drawn one; it has a non-zero probability *)
@@ -88,6 +88,24 @@ Theorem C07_shape : forall g t fin draw g' rel canc,
   all_children_zero g t = false -> cancel_closed g -> evolves g g' /\ cancel_closed g'.
 Proof. exact notify_cond_evolves. Qed.
 Print Assumptions C07_shape.
+
+(* ---- the monitor applied to the implementation's results: `branch_of` (reachability closure by fixpoint
+   iteration) is the untaken branch, c07_check decides c07_obs (Proofs/TaskGraphP9.v) and accepts the model ---- *)
+Theorem C07_monitor_branch : forall g u, wf g -> In u (tg_nodes g) -> (exists order, topo_ok g order) ->
+  forall d, In d (branch_of g u) <-> branch g u d.
+Proof. exact branch_of_iff. Qed.
+Print Assumptions C07_monitor_branch.
+Theorem C07_monitor : forall g t draw rel canc after, wf g -> In t (tg_nodes g) -> (exists order, topo_ok g order) ->
+  (c07_check (g, t, draw, rel, canc, after) = true <-> c07_obs g t draw rel canc after).
+Proof. exact c07_check_iff. Qed.
+Print Assumptions C07_monitor.
+Theorem C07_monitor_accepts_model : forall g t fin draw g' rel canc,
+  notify_completion g t fin draw = (g', Ok (rel, canc)) -> tg_conditional g t = true ->
+  all_children_zero g t = false -> cancel_closed g -> (exists order, topo_ok g order) ->
+  (forall c, nth_z (tg_children g t) draw = Some c -> 0 < tg_prob g c) ->
+  c07_check (g, t, draw, rel, canc, map (fun n => (n, task_state_value (tg_state g' n))) (tg_nodes g)) = true.
+Proof. exact c07_check_accepts_model. Qed.
+Print Assumptions C07_monitor_accepts_model.
 
 (* ---- non-vacuity: C -> [A, B], A -> A2 -> T, B -> T, T -> Z (T terminal); the draw takes A ---- *)
 Definition c7_task (s : task_state) (term cond : bool) (p : Z) : ttask := mk_ttask s (-1) 100 0 4 p term cond (-1) [5].
